@@ -6,6 +6,7 @@ id=$1; prop=$2; src=$3
 export GOFLAGS=-mod=mod GOPROXY=off
 d=/verif/seeded/$id; wt=/tmp/sc-$id
 demo=$(cd $src && git status --short | grep zz_seed_demo_test.go | grep -v ' _seed/' | awk '{print $2}' | head -1)
+if [ -z "$demo" ] && [ -f $d/meta.json ]; then demo=$(python3 -c "import json;print(json.load(open('$d/meta.json'))['demo_package'])")/zz_seed_demo_test.go; fi
 pkgdir=$(dirname $demo)
 git -C /repo worktree remove --force $wt 2>/dev/null
 git -C /repo worktree add -q $wt HEAD
